@@ -93,3 +93,26 @@ Example C13_indices_witness :
   (exists f s, read_file (txt 49 50)%N false = POk f s) /\ read_file (txt 49 49)%N false = PErr /\ read_file (txt 48 50)%N false = PErr.
 Proof. cbv zeta. split; [eexists; eexists; vm_compute; reflexivity|split; vm_compute; reflexivity]. Qed.
 Print Assumptions C13_indices.
+
+(* "an enum value outside its base type": also settled by ReadFile itself, for EVERY input (front/ParseEnumWf.v) - every member
+   of every enum of a File the parser model returns holds a value in the range of the enum's base type (uint32 when none is
+   declared): literals are range-checked at that width, and a [flags] expression is evaluated with wrap-around at that width
+   (eval_range), so what is stored is in range by construction. *)
+Require Import Bebop.front.ParseEnumWf.
+From Coq Require Import ZArith.
+Definition C13_enum_range_statement : Prop :=
+  forall input fails f s, read_file input fails = POk f s ->
+    forall e o, In e (enums f) -> In o (e_opts e) ->
+      if e_unsigned e then (o_uvalue o < 2 ^ ebits e)%N
+      else (- 2 ^ (Z.of_N (ebits e) - 1) <= o_value o < 2 ^ (Z.of_N (ebits e) - 1))%Z.
+Theorem C13_enum_range : C13_enum_range_statement.
+Proof.
+  intros input fails f s E e o He Ho. pose proof (read_file_enums input fails f s E) as H. rewrite Forall_forall in H.
+  specialize (H e He). unfold enum_wf in H. rewrite Forall_forall in H. exact (H o Ho).
+Qed.
+(* not vacuous: `enum E : uint8 { A = 255; }` is accepted, with 256 it is not *)
+Example C13_enum_range_witness :
+  let txt (a b c : N) := [101;110;117;109;32;69;32;58;32;117;105;110;116;56;32;123;10; 65;32;61;32; a; b; c; 59;10; 125;10]%N in
+  (exists f s, read_file (txt 50 53 53)%N false = POk f s) /\ read_file (txt 50 53 54)%N false = PErr.
+Proof. cbv zeta. split; [eexists; eexists; vm_compute; reflexivity|vm_compute; reflexivity]. Qed.
+Print Assumptions C13_enum_range.
